@@ -253,6 +253,63 @@ fn filter_obs(rec: &mut Value, kinds: &[&str], group: &str) {
     }
 }
 
+/// C11 I->S: public packed-pair prefilters with pair offsets up to 254 (long needles), haystacks at and above the
+/// finder's minimum length, first occurrence placed in the last overlapping chunk / final needle.len() bytes.
+pub fn pre_record(r: &mut Rng) -> Value {
+    use memchr::arch::all::packedpair::{self, Pair};
+    let nl = [2usize, 3, 5, 16, 17, 33, 64, 100, 255, 256, 300][r.below(11)];
+    let alpha: &[u8] = if r.chance(1, 2) { b"ab" } else { b"abcdefgh" };
+    let n: Vec<u8> = (0..nl).map(|_| *r.pick(alpha)).collect();
+    let cap = nl.min(255);
+    let (i1, i2) = loop {
+        let a = if r.chance(1, 3) { cap - 1 - r.below(cap.min(3)) } else { r.below(cap) };
+        let b = if r.chance(1, 3) { r.below(cap.min(3)) } else { r.below(cap) };
+        if a != b {
+            break (a, b);
+        }
+    };
+    let pair = Pair::with_indices(&n, i1 as u8, i2 as u8).expect("valid pair");
+    let minlen = nl.max(i1.max(i2) + 32);
+    let hl = minlen + r.below(70);
+    let mut h: Vec<u8> = (0..hl).map(|_| if r.chance(1, 6) { *r.pick(alpha) } else { b'.' }).collect();
+    // partial pair hits and an occurrence near the end (or none)
+    for _ in 0..r.below(4) {
+        let p = r.below(hl);
+        if p + i1 < hl {
+            h[p + i1] = n[i1];
+        }
+        if r.chance(1, 2) && p + i2 < hl {
+            h[p + i2] = n[i2];
+        }
+    }
+    if r.chance(3, 4) {
+        let p = if r.chance(1, 2) { hl - nl - r.below((hl - nl + 1).min(nl.max(20))) } else { r.below(hl - nl + 1) };
+        h[p..p + nl].copy_from_slice(&n);
+    }
+    let mut o = Vec::new();
+    let pre = |e: &str, c: Option<usize>| json!({"e": e, "t": "pre", "r": opt_to_i(c), "i1": i1, "i2": i2, "al": 0, "own": false});
+    if let Some(f) = packedpair::Finder::with_pair(&n, pair) {
+        o.push(pre("all::packedpair::find_prefilter", f.find_prefilter(&h)));
+    }
+    #[cfg(verif_x86)]
+    {
+        use memchr::arch::x86_64::{avx2, sse2};
+        if let Some(f) = sse2::packedpair::Finder::with_pair(&n, pair) {
+            if h.len() >= f.min_haystack_len() {
+                o.push(pre("sse2::packedpair::find_prefilter", f.find_prefilter(&h)));
+                o.push(obs("sse2::packedpair::find", "find", json!(opt_to_i(f.find(&h, &n))), 0, false));
+            }
+        }
+        if let Some(f) = avx2::packedpair::Finder::with_pair(&n, pair) {
+            if h.len() >= f.min_haystack_len() {
+                o.push(pre("avx2::packedpair::find_prefilter", f.find_prefilter(&h)));
+                o.push(obs("avx2::packedpair::find", "find", json!(opt_to_i(f.find(&h, &n))), 0, false));
+            }
+        }
+    }
+    json!({"k": "pre", "n": n, "h": h, "obs": o})
+}
+
 pub fn record(path: &str, family: &str, count: usize, seed: u64, force: &str, kinds: &str, group: &str) -> u64 {
     let kinds: Vec<&str> = kinds.split(',').filter(|x| !x.is_empty()).collect();
     memchr::verif::set_force(force);
@@ -262,6 +319,7 @@ pub fn record(path: &str, family: &str, count: usize, seed: u64, force: &str, ki
         let rec = match family {
             "bytes" => bytes_record(&mut r),
             "sub" => sub_record(&mut r),
+            "pre" => pre_record(&mut r),
             _ => {
                 if i % 2 == 0 {
                     bytes_record(&mut r)
